@@ -407,6 +407,13 @@ def c_helpers(ctx, case):
         expect("wrap_in_cse(variable)", r, r is x, "variable must stay unwrapped")
         r = p.wrap_in_cse(a[1], prefix)
         expect("wrap_in_cse(subscript)", r, not isinstance(r, CSE), "subscript must stay unwrapped")
+        # ... every subscript: whatever the aggregate (a[i][j], o.field[i], f(x)[0]) and the index
+        for sub in (p.Subscript(p.Subscript(a, x), 1), p.Subscript(p.Lookup(x, "coords"), x),
+                    p.Subscript(p.Call(p.Variable("f"), (x,)), 0), p.Subscript(a, (x, p.Sum((x, 1)))),
+                    p.Subscript(a, p.Sum((x, 1))), p.Subscript(p.Sum((a, x)), 2)):
+            r = p.wrap_in_cse(sub, prefix)
+            expect("wrap_in_cse(subscript of composite aggregate)", r, r is sub,
+                   f"{sub} is a subscript and must come back as it is")
         r = p.wrap_in_cse(3, prefix)
         expect("wrap_in_cse(constant)", r, not isinstance(r, CSE), "constant must stay unwrapped",
                policy=True)
